@@ -159,6 +159,7 @@ KEY_SOURCE_CR = "remove-comments-source-cr:--_a\\rprint(2)"
 KEY_CRLF = "remove-comments-crlf-anchor:--_keep\\r\\n"
 KEY_RAW = "remove-spaces-ellipsis-after-line-comment:(--c\\n...number)"
 KEY_END_SEMI = "append-end-before-semicolon:local_a=1;"
+KEY_END_TYPE = "append-end-before-trailing-type:type_T_=_number"
 KEY_DOTNUM = "trailing-dot-number-fused:5.--[[c]]end"
 KEY_MINUS = "remove-spaces-minus-before-comment:a_-_--_c"
 
@@ -476,6 +477,10 @@ def run(ctx):
             fs = files if (not quick or ti < len(FIXED_TEXTS)) else [files[(ti + k) % len(files)] for k in range(3)]
             for f in fs:
                 job("append", {"text": t, "location": loc}, cfg([atc(t, loc)]), f)
+    # location end on files whose last code token belongs to every node kind (the comment must come after it)
+    for label, src in G.last_token_sources():
+        for t in ("hi", "two\nlines"):
+            job("append-last", {"text": t, "location": "end", "label": label}, cfg([atc(t, "end")]), src)
     # pipelines with the other two rules
     for ti, t in enumerate(run_texts[:40]):
         f = files[ti % len(files)]
@@ -577,7 +582,25 @@ def run(ctx):
         has_comment = bool(o.lin[1])
         problem = None
         key = None
-        if kind == "append" or kind == "append+spaces":
+        if kind == "append-last":
+            text = meta["text"]
+            nontriv[kind] = nontriv.get(kind, 0) + 1
+            problem = o.code_kept()
+            if problem is None:
+                problem = o.appended(text, "end")
+            if problem is None:
+                # the input is a prefix of the output and the remainder is nothing but the comment
+                if not out.startswith(ref):
+                    k = next((i for i in range(min(len(ref), len(out))) if ref[i] != out[i]), min(len(ref), len(out)))
+                    problem = "the input is not a prefix of the output (first difference at %d: %r)" % (k, out[max(0, k - 20):k + 20])
+                else:
+                    rt, rc_ = L.lex(out[len(ref):].encode("utf-8"))
+                    if rt or len(rc_) != 1 or text.encode("utf-8") not in rc_[0].text:
+                        problem = "what follows the input is not just the comment: %r" % out[len(ref):][:60]
+            if problem is not None and L.ends_in_type_annotation(src):
+                key = KEY_END_TYPE
+            samples.setdefault(kind, {"label": meta["label"], "text": text, "source": src[-60:], "output": out[-80:]})
+        elif kind == "append" or kind == "append+spaces":
             text, loc = meta["text"], meta["location"]
             if text or has_comment:
                 nontriv[kind] = nontriv.get(kind, 0) + 1
@@ -612,6 +635,8 @@ def run(ctx):
                     key = KEY_DOTNUM
                 if key is None and loc == "end" and "moved code b';'" in problem:
                     key = KEY_END_SEMI
+                if key is None and loc == "end" and L.ends_in_type_annotation(src):
+                    key = KEY_END_TYPE
             elif kind == "append" and loc == "end" and text:
                 p2 = o.end_comment_lines()
                 if p2 is not None:
